@@ -621,7 +621,7 @@ func c13judgeWire(c *Ctx, ns *NodeSim) {
 	reqOnConn := map[*WBlock]int{}    // requests per block on curConn since the last branch switch away from it
 	lastReqAt := map[*WBlock]time.Duration{}
 	maxWin := 0
-	for _, it := range items {
+	for itIdx, it := range items {
 		if it.ann != nil {
 			for _, b := range it.ann {
 				if b.Height >= startH && b.Txs != nil && !everRequested[b] {
@@ -660,7 +660,41 @@ func c13judgeWire(c *Ctx, ns *NodeSim) {
 		case b == prev || IsAncestor(b, prev):
 			// going back on the same branch: judged as a repeat below
 		case IsAncestor(prev, b):
-			c.Violate("order", "skipped", "block request for %s follows the request for %s on %s: %d block(s) in between were not requested first", b, prev, r.conn, b.Height-prev.Height-1)
+			// The headers handler and the block processor each write their own getdata: the
+			// handler marks its blocks as requested first and writes one getdata for all of them
+			// at the end of the headers message, the block processor writes one the moment a slot
+			// is free. The queue's decisions are in chain order; the two threads' writes may land
+			// on the wire the other way round, milliseconds apart. A block in between counts as
+			// skipped only if this connection neither carried its request before nor carries it
+			// within a second.
+			missing := 0
+			for x := b.Parent; x != nil && x != prev; x = x.Parent {
+				if reqOnConn[x] > 0 {
+					continue
+				}
+				soon := false
+				for j := itIdx + 1; j < len(items); j++ {
+					o := items[j]
+					if o.req == nil {
+						continue
+					}
+					if o.req.at-r.at > time.Second {
+						break
+					}
+					if o.req.conn == r.conn && o.req.b == x {
+						soon = true
+						break
+					}
+				}
+				if !soon {
+					missing++
+				}
+			}
+			if missing > 0 {
+				c.Violate("order", "skipped", "block request for %s follows the request for %s on %s: %d block(s) in between were not requested before or within a second", b, prev, r.conn, missing)
+			} else {
+				c.Probe("request_writes_of_two_threads_inverted")
+			}
 		default:
 			// another branch: requests beyond the fork point are discarded, the new branch is
 			// requested from the first block after the fork
